@@ -18,6 +18,7 @@
 -/
 import Verif.Lemmas.TthRt
 import Verif.Lemmas.TthStream
+import Verif.Lemmas.TthUtil
 namespace Verif.C06
 open Verif.TTH Verif.Frame
 
@@ -194,6 +195,55 @@ theorem order_irrelevant (p q : EncParam) (hf : p.flags = q.flags ∧ p.seq = q.
   unfold infoSize
   rw [hlen]
 
+/-! ### the exported helpers of utils.go: IsStreaming, WriteUint32, WriteString -/
+
+/-- **isStreaming_iff.** For every byte string IsStreaming returns (it indexes only after its length
+    check: no panic), and it answers true exactly for buffers of at least 8 bytes whose magic is 0x1000
+    and whose streaming flag bit (0x0002) is set. -/
+theorem isStreaming_iff (b : Bytes) :
+    (isStreaming b).Safe ∧
+    (isStreaming b = .ok true ↔ 8 ≤ b.length ∧ rd16 (b.drop 4) = 0x1000 ∧ rd16 (b.drop 6) / 2 % 2 = 1) ∧
+    (isStreaming b = .ok true ∨ isStreaming b = .ok false) := by
+  rw [isStreaming_eq]
+  refine ⟨⟨fun s => by simp, by simp⟩, ?_, ?_⟩
+  · unfold Frame.streaming
+    constructor
+    · intro h; have := Out.ok.inj h; simpa using this
+    · intro h; simp [h]
+  · cases Frame.streaming b <;> simp
+
+/-- **isStreaming_of_encode.** Whatever Encode produced (any healthy writer without prior content, any
+    order, any fresh-memory content, before or after the caller sets the length field — IsStreaming does
+    not look at it), followed by any payload: IsStreaming answers the streaming bit of `Flags`. -/
+theorem isStreaming_of_encode (p : EncParam) (w : W) (hb : w.broken = false) (hw : w.items = [])
+    (hd : (fp p).Dom) (hs : infoSize (fp p) ≤ 65536) (payload : Bytes) :
+    ∃ w', encode p w = .ok (w.n, w') ∧
+      isStreaming (w'.bytes ++ payload) = .ok (decide (p.flags / 2 % 2 = 1)) := by
+  obtain ⟨_, h2⟩ := encode_layout p w hb hd (by omega)
+  obtain ⟨w', e, hbytes, _⟩ := h2 hs
+  refine ⟨w', e, ?_⟩
+  have : w.bytes = [] := by simp [W.bytes, hw]
+  rw [hbytes, this, List.nil_append, isStreaming_eq,
+    isStreaming_layout p (lenField w) payload (lenField_length w) hd.flags]
+
+/-- the same on the layout itself, with any length field -/
+theorem isStreaming_of_layout (p : EncParam) (lf rest : Bytes) (hlf : lf.length = 4) (hf : p.flags < 65536) :
+    isStreaming (layout lf (fp p) ++ rest) = .ok (decide (p.flags / 2 % 2 = 1)) := by
+  rw [isStreaming_eq, isStreaming_layout p lf rest hlf hf]
+
+/-- **writeString_layout.** WriteString on a healthy writer appends the 4-byte big-endian length and the
+    bytes, and returns len + 4; WriteUint32 appends the 4 bytes. (`uint32(len)` cannot truncate below 4 GiB.) -/
+theorem writeString_layout (w : W) (hb : w.broken = false) (s : Bytes) (hs : s.length < 4294967296) :
+    ∃ w', writeStr4 w s = .ok (s.length + 4, w') ∧ w'.bytes = w.bytes ++ str4 s := by
+  refine ⟨_, writeStr4_ok w hb s, ?_⟩
+  rw [W.bytes_app, Nat.mod_eq_of_lt hs]
+  simp [str4]
+
+theorem writeUint32_layout (w : W) (hb : w.broken = false) (v : Nat) :
+    ∃ w', writeU32 w v = .ok w' ∧ w'.bytes = w.bytes ++ be32 v := by
+  refine ⟨_, writeU32_ok w hb v, ?_⟩
+  rw [W.bytes_app]; simp
+
 /-! ### non-vacuity -/
 
 /-- a parameter set with both maps, the ACL token, every field non-trivial -/
@@ -274,5 +324,10 @@ theorem rejects_4GiB (v : Bytes) (hv : v.length = 4294967290) (w : W) (hb : w.br
   exact ⟨hsz, (encode_layout (big v) w hb (big_dom v) (by rw [hsz]; decide)).1.mpr (by rw [hsz]; decide)⟩
 
 example : ∃ v : Bytes, v.length = 4294967290 := ⟨List.replicate 4294967290 0, List.length_replicate⟩
+
+/-- IsStreaming on `sample` (flags 0x8002: streaming bit set) and on a 7-byte prefix (too short) -/
+example : isStreaming [0, 0, 0, 0, 0x10, 0x00, 0x80, 0x02] = .ok true := by decide +kernel
+example : isStreaming [0, 0, 0, 0, 0x10, 0x00, 0x80] = .ok false := by decide +kernel
+example : isStreaming [0, 0, 0, 0, 0x10, 0x00, 0x80, 0x01, 9] = .ok false := by decide +kernel
 
 end Verif.C06
